@@ -270,3 +270,8 @@ def dispatch_layer(seed: int, n_cases: int) -> Dict[str, Any]:
 def router_layer(seed: int, n_cases: int) -> Dict[str, Any]:
     """generated street graphs through the real OSMRoadNetwork router, routes and junction paths checked (C13, C14)"""
     return generic_layer("router", "router", seed, n_cases, 32452867)
+
+
+def events_layer(seed: int, n_cases: int) -> Dict[str, Any]:
+    """whole runs through the real file-writing handlers, the written log parsed back and audited (C19)"""
+    return generic_layer("events", "events", seed, n_cases, 49979693)
